@@ -613,6 +613,40 @@ func runSearch(args []string) {
 			return
 		}
 		strat := eng.Strategy().String()
+		if pset["C09"] {
+			// metadata as functions of the syntax tree: NumSubexp = NCaps(re), SubexpNames = Names(re)
+			names := make([]string, len(rec.Names))
+			for i, nm := range rec.Names {
+				b := make([]byte, len(nm))
+				for j, x := range nm {
+					b[j] = byte(x)
+				}
+				names[i] = string(b)
+			}
+			if std.NumSubexp() != rec.NC || fmt.Sprintf("%q", std.SubexpNames()) != fmt.Sprintf("%q", names) {
+				rep.Gap(fmt.Sprintf("metadata %s: spec %d %q regexp %d %q", pat, rec.NC, names, std.NumSubexp(), std.SubexpNames()))
+			} else {
+				meta := func(api, want, got string) {
+					if want != got {
+						rep.Fail(&core.Failure{Prop: "C09", API: api, Mode: "compile", Pattern: pat, Want: want, Got: got, Fam: rec.Fam, Scope: "compile"})
+					}
+				}
+				meta("NumSubexp", fmt.Sprint(rec.NC), fmt.Sprint(cg.NumSubexp()))
+				meta("SubexpNames", fmt.Sprintf("%q", names), fmt.Sprintf("%q", cg.SubexpNames()))
+				for i, nm := range names {
+					if nm != "" {
+						meta("SubexpIndex", fmt.Sprint(std.SubexpIndex(nm)), fmt.Sprint(cg.SubexpIndex(nm)))
+						_ = i
+					}
+				}
+				meta("String", pat, cg.String())
+				sl, sc := std.LiteralPrefix()
+				cl, cc := cg.LiteralPrefix()
+				meta("LiteralPrefix", fmt.Sprintf("%q %v", sl, sc), fmt.Sprintf("%q %v", cl, cc))
+			}
+			rep.Add(1, 0, 5, 1, strat)
+			return
+		}
 		posixPat, posixOK := "", false
 		if pset["C10"] {
 			if pp, ok := rec.Re.PatternPOSIX(); ok {
